@@ -42,6 +42,13 @@ def same(a, b):
     return a == b
 
 
+def kind_family(x):
+    for name, tp in (("bool", bool), ("bytes", bytes), ("str", str), ("float", float), ("int", int)):
+        if isinstance(x, tp):
+            return name if name != "bool" else "int"
+    return type(x).__name__
+
+
 def attempt(fn):
     try:
         return ("ok", fn())
@@ -117,7 +124,12 @@ def check_values(t: Tally):
                 want_raw = v if raw == "<omitted>" else raw
                 t.evals += 1
                 got_raw = getattr(p, "raw_value", "<missing>")
-                if not (same(got_raw, want_raw) and type(got_raw) is type(want_raw)) and not (raw == "<omitted>" and same(base_type(v)(got_raw) if kind != "bool" else bool(got_raw), v)):
+                raw_ok = same(got_raw, want_raw) and type(got_raw) is type(want_raw)
+                if not raw_ok and raw == "<omitted>":
+                    # when no raw value is given, raw_value may be the value object itself (a subclass instance)
+                    conv = attempt(lambda: base_type(v)(got_raw) if kind != "bool" else bool(got_raw))
+                    raw_ok = conv[0] == "ok" and kind_family(got_raw) == kind_family(v) and same(conv[1], v)
+                if not raw_ok:
                     t.violation({"kind": "raw-value", "class": kind, "falsy_raw": not bool(want_raw) if not isinstance(want_raw, float) else want_raw == 0},
                                 case, expected=repr(want_raw), observed=repr(got_raw))
                 for name, fn in ops:
@@ -171,6 +183,41 @@ def check_values(t: Tally):
                             bad = f"{cname} changed raw_value to {getattr(q, 'raw_value', '<missing>')!r}"
                     if bad:
                         t.violation({"kind": "copy-differs", "class": kind, "copy": cname.rstrip("012345")}, {**case, "copy": cname}, observed=bad)
+
+
+def check_interference(t: Tally):
+    """Values are independent objects: creating, copying or unpickling one value never changes another equal value."""
+    from space_packet_parser import common
+    classes = {"int": (common.IntParameter, INTS), "float": (common.FloatParameter, FLOATS), "str": (common.StrParameter, STRS),
+               "bytes": (common.BinaryParameter, BYTES), "bool": (common.BoolParameter, BOOLS)}
+    copies = [copy.copy, copy.deepcopy] + [lambda x, pr=pr: pickle.loads(pickle.dumps(x, protocol=pr)) for pr in range(0, pickle.HIGHEST_PROTOCOL + 1)]
+    for kind, (cls, vals) in classes.items():
+        for v in vals:
+            for raw in RAWS[1:]:
+                a = cls(v)                      # no separate raw value
+                b = cls(v, raw)                 # equal value, separate raw value
+                before = (repr(a), repr(getattr(a, "raw_value", None)), repr(b), repr(getattr(b, "raw_value", None)))
+                for cf in copies:
+                    attempt(lambda: cf(b))
+                    attempt(lambda: cf(a))
+                c = cls(v)                      # created afterwards
+                after = (repr(a), repr(getattr(a, "raw_value", None)), repr(b), repr(getattr(b, "raw_value", None)))
+                t.evals += 1
+                want_c = repr(v) if kind != "bool" else repr(bool(v))
+                fresh_ok = repr(c) == want_c and same(getattr(c, "raw_value", "<missing>"), v if kind != "bool" else v) \
+                    and kind_family(getattr(c, "raw_value", None)) == kind_family(v)
+                if before != after or not fresh_ok:
+                    t.violation({"kind": "values-interfere", "class": kind}, {"class": kind, "value": repr(v), "raw": repr(raw)},
+                                expected=before, observed=(after, repr(c), repr(getattr(c, "raw_value", None))),
+                                note="copying one value changed another equal value (shared instance?)")
+    # values that compare equal but are different (signed zeros, 1 vs True vs 1.0) stay distinct
+    for cls, pair in ((common.FloatParameter, (0.0, -0.0)), (common.FloatParameter, (-0.0, 0.0)), (common.IntParameter, (1, True)),
+                      (common.IntParameter, (0, False))):
+        x, y = cls(pair[0]), cls(pair[1])
+        t.evals += 1
+        if repr(x) != repr(type(pair[0])(pair[0]) if cls is not common.IntParameter else int(pair[0])) or \
+                repr(y) != repr(type(pair[1])(pair[1]) if cls is not common.IntParameter else int(pair[1])):
+            t.violation({"kind": "values-interfere", "class": "equal-but-distinct"}, {"pair": repr(pair)}, observed=(repr(x), repr(y)))
 
 
 def check_packets(t: Tally):
@@ -228,9 +275,13 @@ def check_packets(t: Tally):
 
 def run(ctx):
     t = Tally()
-    with case_alarm(600):
-        check_values(t)
-        check_packets(t)
+    for part in (check_values, check_interference, check_packets):
+        try:
+            with case_alarm(600):
+                part(t)
+        except BaseException as e:  # noqa: BLE001 - a corrupted value class can make anything fail; keep what was found so far
+            t.violation({"kind": "part-aborted", "part": part.__name__, "exc": type(e).__name__}, {"part": part.__name__}, observed=repr(e)[:300],
+                        note="the library failed in an unexpected place while this part of the check was running")
     t.sample({"class": "int", "value": 0, "raw": 0.0, "operations": "comparisons, hash, truth, str/repr/format, arithmetic, bit ops, dict key, sorted, 8 copies"})
     t.sample({"packet": "parsed A packet with cursor at end", "copies": ["copy", "deepcopy", "pickle0..5"]})
     coverage = {
